@@ -52,9 +52,9 @@ def _session(rng):
     entries, files = c19.generate(rng)
     files = dict(files)
     # (not executed in repl mode; kept so that samples and signatures have a text to show)
-    files[workloads.MAIN] = "\n".join(text for text, _ in entries) + "\n"
+    files[workloads.MAIN] = "\n".join(entry[0] for entry in entries) + "\n"
     return {"name": "session", "main": workloads.MAIN, "files": files, "mode": "repl",
-            "stdin": [text + "\n" for text, _ in entries]}
+            "stdin": [entry[0] + "\n" for entry in entries]}
 
 
 def register_all():
